@@ -7,7 +7,7 @@ from .core import Case, cZ, cD, clist, cbool, copt
 obligations = pylite_tie.blocksplit_obligations   # source-regenerated tie of block_split (harness/pylite_blocksplit.v.tmpl)
 ID = "C08"
 PROPS_FILE = "Props/C08.v"
-IMPORTS = "From Verde Require Import Model.Coordinates Model.CoordCases Model.Blocks."
+IMPORTS = "From Verde Require Import Model.Coordinates Model.CoordCases Model.Blocks Model.BlocksHuge."
 SHARD = 60
 RULE = ("point clouds (1-D and 2-D arrays, optionally with an ignored third coordinate) against regions on a dyadic lattice and random "
         "float regions (given, or inferred from the cloud), block sizes given as scalar / (north, east) spacing with both adjust modes "
@@ -18,7 +18,7 @@ RULE = ("point clouds (1-D and 2-D arrays, optionally with an ignored third coor
         "copies, transposed views of transposed copies, strided windows of larger C / Fortran arrays, slices of transposed views, easting "
         "and northing with different layouts, non-square shapes - and integer-valued lattice clouds also as int64 / int32 arrays; easting, northing and the extra coordinate also with DIFFERENT dtypes (int32/int64/float32/float64 in all orders) and values needing the wider type (fractions next to integers, 7.5e6 + fractions next to float32), regions also smaller than the data extent with both adjust modes; the model "
         "always receives the logical C-order ravel. Every call is made twice on the same argument objects (identical result, arguments "
-        "unchanged); grids with 17 .. 600 blocks with points strictly inside a block at 1e-6 .. 1e-2 of its size from an edge (compared exactly) and points up to three region widths outside; 2-D inputs with more than 10000 points (model evaluated on a fixed subsample of positions incl. runs around every multiple of 10000, all labels range-checked); region passed as tuple / list / float64 / integer ndarray in rotation; a sequence stream calls, modifies the same array objects in place (shift, scale, centre, overwrite) and calls again "
+        "unchanged); grids with 17 .. 600 blocks with points strictly inside a block at 1e-6 .. 1e-2 of its size from an edge (compared exactly) and points up to three region widths outside; grids of 129..256, 32768..65536 and > 65536 blocks with most points in the last rows / columns (every label range-checked, labels compared with the closed-form geometry in Coq, centres on a sample of block numbers); 2-D inputs with more than 10000 points (model evaluated on a fixed subsample of positions incl. runs around every multiple of 10000, all labels range-checked); region passed as tuple / list / float64 / integer ndarray in rotation; a sequence stream calls, modifies the same array objects in place (shift, scale, centre, overwrite) and calls again "
         "(must match the model on the new values and a call on fresh copies). Non-trivial = the call returns labels for a non-empty cloud; distinct = distinct argument tuples. Points within 2^-30 x scale "
         "of a shared edge are excluded point-wise from the label equality (the statement is still evaluated on them); cases whose "
         "extent/spacing quotient is within 2^-30 of a rounding tie without being one are skipped.")
@@ -135,6 +135,62 @@ def block_case(vd, spec, spacing, adj, region, shape, kind, pre=None, rkind="tup
     if pre:
         inp["after"] = {"earlier_call_on_same_objects": [pre[0][0], repr(pre[0][1])], "then_in_place": [list(o) for o in pre[1]]}
     return Case(inp, obs, term, repro, kind, nontrivial=(obs != "ValueError" and east.size > 0))
+
+
+def huge_case(vd, rnd, region, spacing, shape, adj, kind):
+    """block grids with hundreds to tens of thousands of blocks: most points in the LAST rows / columns (high block
+    numbers), a few elsewhere; every label range-checked here; labels compared in Coq with the closed-form geometry
+    (c08_huge), centres on a sample of block numbers"""
+    w, e, s0, n = region
+    bc0 = vd.grid_coordinates(region, spacing=spacing, shape=shape, adjust=ADJ[adj], pixel_register=True, meshgrid=False)
+    nc, nr = len(bc0[0]), len(bc0[1])
+    dx = (bc0[0][1] - bc0[0][0]) if nc > 1 else (e - w)
+    dy = (bc0[1][1] - bc0[1][0]) if nr > 1 else (n - s0)
+    xs, ys = [], []
+    for _ in range(200):     # the last three rows / the last columns of the last rows
+        r = nr - 1 - rnd.randrange(min(3, nr))
+        c = nc - 1 - rnd.randrange(min(nc, 40)) if rnd.random() < 0.7 else rnd.randrange(nc)
+        xs.append(w + (c + rnd.uniform(0.05, 0.95)) * dx)
+        ys.append(s0 + (r + rnd.uniform(0.05, 0.95)) * dy)
+    for _ in range(40):
+        xs.append(w + (rnd.randrange(nc) + rnd.uniform(0.05, 0.95)) * dx)
+        ys.append(s0 + (rnd.randrange(nr) + rnd.uniform(0.05, 0.95)) * dy)
+    xs = [round(x * 4096) / 4096 for x in xs]
+    ys = [round(y * 4096) / 4096 for y in ys]
+    spec = [(np.reshape(xs, (12, 20)).tolist(), rnd.choice(layouts.KINDS), "float64"), (np.reshape(ys, (12, 20)).tolist(), rnd.choice(layouts.KINDS), "float64")]
+    coords = layouts.build(spec)
+    kw = {"region": region}
+    if spacing is not None:
+        kw["spacing"] = spacing
+    if shape is not None:
+        kw["shape"] = shape
+    if adj != 0:
+        kw["adjust"] = ADJ[adj]
+    inp = {"fn": "block_split", "coordinates": layouts.describe(spec), "spacing": spacing, "shape": shape,
+           "region": [float(r) for r in region], "adjust": ADJ[adj], "n_blocks": nr * nc}
+    repro = layouts.repro_args(spec) + "import verde; b, l = verde.block_split(c, **%r); print(b[0].size, l.dtype, l.min(), l.max(), l)" % (kw,)
+    try:
+        bc, labels = vd.block_split(coords, **kw)
+        labels = np.asarray(labels)
+        bc2, labels2 = vd.block_split(coords, **kw)
+        nblocks = int(bc[0].size)
+        in_range = bool(labels.size == 0 or (labels.min() >= 0 and labels.max() < nblocks))
+        py_ok = (len(bc) == 2 and bc[0].ndim == 1 and bc[1].ndim == 1 and bc[1].size == nblocks and labels.ndim == 1
+                 and labels.shape[0] == coords[0].size and np.issubdtype(labels.dtype, np.integer) and in_range
+                 and np.array_equal(labels, np.asarray(labels2)) and all(np.array_equal(a, b) for a, b in zip(bc, bc2)))
+        ks = sorted({0, nblocks - 1, min(nc - 1, nblocks - 1), max(0, nblocks - nc)} | {int(k) for k in labels[:25] if 0 <= k < nblocks})
+        obs = {"n_centres": nblocks, "labels": [int(x) for x in labels], "label_dtype": str(labels.dtype), "all_labels_in_range": in_range,
+               "centres_sample": [[k, float(bc[0][k]), float(bc[1][k])] for k in ks]}
+        sample = clist(["(%s, %s, %s)" % (cZ(k), cD(bc[0][k]), cD(bc[1][k])) for k in ks])
+        csp = "None" if spacing is None else "(Some %s)" % dl([spacing] if np.isscalar(spacing) else spacing)
+        cshape = "None" if shape is None else "(Some (%s, %s))" % (cZ(shape[0]), cZ(shape[1]))
+        term = "c08_huge %s %s %s %s %s %s %s %s %s %s" % (
+            dl(layouts.logical(coords[0])), dl(layouts.logical(coords[1])), csp, cZ(adj), dl(region), cshape, cZ(nblocks), sample,
+            "(%s)%%Z" % clist([core.cZraw(int(x)) for x in labels]), cbool(py_ok))
+    except Exception as exc:
+        obs = {"unexpected_exception": repr(exc)}
+        term = "Vboth"
+    return Case(inp, obs, term, repro, kind)
 
 
 # ---------------------------------------------------------------------------
@@ -346,6 +402,19 @@ def generate(tier, seed):
             xs.append(rnd.uniform(reg[0], reg[1]))
             ys.append(rnd.uniform(reg[2], reg[3]))
         cases.append(block_case(vd, layouts.arrange(rnd, [xs, ys]), sp, adj, reg, sh, "many-blocks", rkind=layouts.ARG_KINDS[i % 4]))
+    # hundreds to tens of thousands of blocks (around the 128 / 32768 / 65536 boundaries of narrow integer types)
+    huge = [((0.0, 16.0, 0.0, 10.0), 1.0, None, 0), ((-3.0, 5.5, 2.0, 8.5), None, (13, 17), 0), ((0.0, 250.0, 0.0, 200.0), 1.0, None, 0),
+            ((0.0, 91.0, -45.25, 45.25), None, (181, 182), 0), ((0.0, 4000.0, 0.0, 10.0), None, (1, 40000), 0),
+            ((0.0, 64.0, 0.0, 32.0), (0.25, 0.25), None, 1), ((0.0, 32.0, 0.0, 32.0), None, (256, 256), 0), ((0.0, 300.0, 0.0, 250.0), 1.0, None, 0)]
+    if tier != "quick":
+        huge += [((0.0, 32769.0, 0.0, 1.0), None, (1, 32769), 0), ((0.0, 16.0, 0.0, 8.0), None, (8, 16), 0), ((0.0, 16.0, 0.0, 8.0), None, (3, 43), 0),
+                 ((0.0, 10.0, 0.0, 3000.0), (0.1, 1.0), None, 0), ((0.0, 257.0, 0.0, 256.0), 1.0, None, 1), ((0.0, 1.0, 0.0, 1.0), None, (40000, 1), 0)]
+        for _ in range(14):
+            nrr, ncc = rnd.choice([(150, 220), (181, 182), (200, 300), (256, 255), (255, 257), (12, 11), (16, 16), (10, 25), (128, 257), (220, 150)])
+            huge.append(((0.0, ncc * 0.5, -1.0, -1.0 + nrr * 0.25), None, (nrr, ncc), 0))
+    for reg, sp, sh, adj in huge:
+        cases.append(core.guarded(lambda: huge_case(vd, rnd, reg, sp, sh, adj, "many-blocks-huge"),
+                                  {"fn": "block_split", "region": list(reg), "spacing": sp, "shape": sh}, "many-blocks-huge"))
     # very large 2-D inputs (more than 10000 points in total): the model is evaluated on a fixed subsample of
     # positions (first, last, every 97th, around every multiple of 10000); every label is range-checked
     bigs = [(101, 101, "C"), (160, 70, "F")] if tier == "quick" else [(101, 101, "C"), (160, 70, "F"), (70, 160, "C"), (3, 7001, "TT"), (10001, 2, "C"), (203, 150, "Tslice")]
